@@ -9,7 +9,7 @@ from hv import Case
 
 SPEC = {
     "lean_modules": ["Honeycomb.Props.C09"],
-    "required_theorems": ["C09_roundtrip"],
+    "required_theorems": ["C09_roundtrip", "C09_roundtrip_small", "C09_coordsPrintable_of_small"],
     "trusted_base": [
         "Lean 4.33 kernel; axioms propext, Classical.choice, Quot.sound only",
         "hand-written token-level model Honeycomb/Model/CmapText.lean (serialize, parseFile, build, load) tied to "
@@ -21,10 +21,12 @@ SPEC = {
     "assumptions": [
         "token level: column padding, separators and trailing blanks of the real text are not modelled; they are covered "
         "by the byte-for-byte comparison of the second serialization on the implementation (`rt`), not by the theorem",
-        "coordinates are opaque tokens: the theorem assumes (hypothesis `CoordsPrintable m`, not an axiom) that every printed "
-        "coordinate token contains no `#` and is read back by the model's coordinate parser as the same rational; the "
-        "hypothesis is discharged by evaluation on the non-vacuity example; the float printing/parsing of the implementation "
-        "(shortest round-trip decimal of f64, f32 through f64) is validated on the implementation only (`rt`, `rt32`)",
+        "coordinates are exact rationals printed as `p/q` tokens (opaque at this level): C09_roundtrip is stated under the "
+        "explicit hypothesis `CoordsPrintable m` (every printed token is `#`-free and read back by the model's parser as the "
+        "same rational); that hypothesis is PROVED (parseCoord_ratStr, noHash_ratStr; C09_roundtrip_small) for every "
+        "rational whose numerator and denominator have at most 18 digits (the range of the harness notation), so it is an "
+        "assumption only beyond that range; the float printing/parsing of the implementation (shortest round-trip decimal "
+        "of f64, f32 through f64) is validated on the implementation only (`rt`, `rt32`), not proved",
         "numerals: the round trip `parseU32 (natTok v) = some v` is PROVED (lemma parseU32_natTok) from core's "
         "Nat.ofDigitChars_ten_toDigits; it needs v < 2^32, hence the hypothesis n_darts <= 2^32 (u32 dart ids)",
         "the version token (CARGO_PKG_VERSION) is a parameter of the theorem, assumed free of `#` and not starting with `[`",
@@ -39,9 +41,10 @@ SPEC = {
             "chains/cycles/pairs/free maps with n_darts in {9,10,11,99,100,101,999,1000,1001}; special floats (implementation "
             "only): +-0, subnormals, MIN_POSITIVE, MAX, +-inf, random bit patterns, f32 maps via rt32.",
     "not_proved": [
-        "character level of the format (padding, float decimal printing/parsing): validated by `rt`/`rt32` on the implementation",
-        "C09_roundtrip is stated for coordinates satisfying CoordsPrintable (token parses back, no '#'); no general lemma "
-        "`∀ q, parseCoord (ratStr q) = some q` is proved (it is false beyond 18 digits because of the harness notation)",
+        "character level of the format (column padding, separators, float decimal printing/parsing, f32): validated by the "
+        "byte-for-byte and bit-for-bit checks `rt` / `rt32` on the implementation, not proved",
+        "coordinates outside the 18-digit rational range (e.g. subnormals, 1e300) and -0.0 / infinities are not representable "
+        "in the model: covered by the implementation-only stream",
     ],
 }
 
